@@ -67,6 +67,21 @@ type EmbedsUnexported struct {
 	Top int
 }
 
+// EmbedsMiddle and EmbedsLate: the embedded struct does not sit at the start of the outer struct.
+type EmbedsMiddle struct {
+	A int
+	Inner
+	D float64
+}
+
+type EmbedsLate struct {
+	Flag bool
+	Note string
+	inner2
+	EmbedsMiddle
+	Last *int
+}
+
 type Embeds2 struct {
 	Embeds
 	W float32
@@ -258,7 +273,7 @@ var Specials = []reflect.Type{
 // Structs is the static catalogue of named struct types.
 var Structs = []reflect.Type{
 	reflect.TypeOf(Plain{}), reflect.TypeOf(Tagged{}), reflect.TypeOf(Inner{}), reflect.TypeOf(Embeds{}),
-	reflect.TypeOf(EmbedsUnexported{}), reflect.TypeOf(Embeds2{}), reflect.TypeOf(Unexported{}),
+	reflect.TypeOf(EmbedsUnexported{}), reflect.TypeOf(Embeds2{}), reflect.TypeOf(EmbedsMiddle{}), reflect.TypeOf(EmbedsLate{}), reflect.TypeOf(Unexported{}),
 	reflect.TypeOf(OnePtr{}), reflect.TypeOf(OneMap{}), reflect.TypeOf(OneArr{}), reflect.TypeOf(OneSlice{}),
 	reflect.TypeOf(OneIface{}), reflect.TypeOf(OneStruct{}), reflect.TypeOf(OneOne{}), reflect.TypeOf(Zero{}),
 	reflect.TypeOf(Rec{}), reflect.TypeOf(Tree{}), reflect.TypeOf(MutA{}), reflect.TypeOf(MutB{}),
